@@ -45,15 +45,19 @@ PROPS = {
         'trusted': ['hand-written interaction-tree model of Process/redirectToIDP/retrieveTokens/refreshToken (AuthModel/Oidc/Handler.lean), tied to the code by the differential run (response + ordered action trace per request line)', 'oracles: jwt parsing and claims (jwx), JWS verification (checked against an independent stdlib RSA verification in the harness), SHA-256/base64url; url.Parse of the callback URI', 'store-level atomicity of one Redis method is assumed except in redis_prefix_safe'],
     },
     'C02': {
-        'theorems': ['bound_only_validated', 'validated_meaning', 'login_nonce_exact', 'merged_provenance', 'forwarded_eq_bound', 'same_header_drops_id', 'ok_headers'],
+        'theorems': ['bound_only_validated', 'validated_meaning', 'login_nonce_exact', 'merged_provenance', 'forwarded_eq_bound', 'same_header_drops_id', 'ok_headers', 'code_forwarded_headers'],
+        'translated': ['encodeTokensToHeaders', 'encodeHeaderValue'],
         'trusted': ['hand-written interaction-tree model of Process/redirectToIDP/retrieveTokens/refreshToken (AuthModel/Oidc/Handler.lean), tied to the code by the differential run (response + ordered action trace per request line)', 'oracles: jwt parsing and claims (jwx), JWS verification (checked against an independent stdlib RSA verification in the harness), SHA-256/base64url; url.Parse of the callback URI', 'signature soundness of jwx/crypto is trusted; the key set is an oracle'],
     },
     'C05': {
-        'theorems': ['redirect_renews', 'writes_only_under_issued', 'cookie_name_host_prefix', 'cookie_name_is_token', 'set_cookie_shape', 'directives_match_source', 'name_parts_match_source', 'logout_expires_cookie'],
+        'theorems': ['redirect_renews', 'writes_only_under_issued', 'cookie_name_host_prefix', 'cookie_name_is_token', 'set_cookie_shape', 'directives_match_source', 'name_parts_match_source', 'logout_expires_cookie',
+                     'code_cookie_name_host_prefix', 'code_set_cookie_shape', 'code_session_id_from_cookie'],
+        'translated': ['getCookieName', 'getCookieDirectives', 'generateSetCookieHeader', 'getSessionIDFromCookie', 'DecodeCookiesHeader', 'EncodeCookieHeader'],
         'trusted': ['hand-written interaction-tree model of Process/redirectToIDP/retrieveTokens/refreshToken (AuthModel/Oidc/Handler.lean), tied to the code by the differential run (response + ordered action trace per request line)', 'oracles: jwt parsing and claims (jwx), JWS verification (checked against an independent stdlib RSA verification in the harness), SHA-256/base64url; url.Parse of the callback URI', 'generator freshness (new id differs from the presented one) is a property of the entropy source (C06)'],
     },
     'C11': {
-        'theorems': ['refresh_request', 'merge_spec', 'rotated_refresh_token_replaces', 'omitted_refresh_token_kept', 'refresh_success_stores_and_forwards_merged', 'refresh_failure_removes_session', 'refresh_branch_outcomes'],
+        'theorems': ['refresh_request', 'merge_spec', 'rotated_refresh_token_replaces', 'omitted_refresh_token_kept', 'refresh_success_stores_and_forwards_merged', 'refresh_failure_removes_session', 'refresh_branch_outcomes', 'code_response_validators'],
+        'translated': ['isValidIDPNewTokensResponse', 'isValidIDPRefreshTokenResponse'],
         'trusted': ['hand-written interaction-tree model of Process/redirectToIDP/retrieveTokens/refreshToken (AuthModel/Oidc/Handler.lean), tied to the code by the differential run (response + ordered action trace per request line)', 'oracles: jwt parsing and claims (jwx), JWS verification (checked against an independent stdlib RSA verification in the harness), SHA-256/base64url; url.Parse of the callback URI', 'the ledger of issued refresh tokens lives in the harness monitor'],
     },
     'C13': {
@@ -79,7 +83,8 @@ PROPS = {
     },
     'C09': {
         'theorems': ['logout_answer', 'logout_answer_shape', 'logout_only_after_removal', 'removal_erases', 'ok_requires_tokens_read', 'writes_need_prior_read', 'resurrection_logout_answered', 'resurrection_inflight_ok', 'logout_resurrection', 'finality_characterisation',
-                     'redis_removal_reported_faithfully', 'redis_nothing_after_removal', 'logout_uri_configured_or_discovered', 'discovery_refuses_logout_without_uri'],
+                     'redis_removal_reported_faithfully', 'redis_nothing_after_removal', 'logout_uri_configured_or_discovered', 'discovery_refuses_logout_without_uri', 'code_path_matchers'],
+        'translated': ['matchesLogoutPath', 'matchesCallbackPath', 'GetPathQueryFragment'],
         'trusted': ['hand-written interaction-tree model of the handler tied to the code by the differential run', 'oracles: jwt parsing/claims (jwx), JWS verification, SHA-256; url.Parse of the callback URI', 'finality over ALL interleavings is proved up to one shape (finality_characterisation: tokens served after an acknowledged removal imply a thread that read the session before the removal and wrote tokens after it) over a store that answers like the abstract session map (both stores refine it, C12; atomicity of a single store call is assumed); that shape is the known finding, exhibited by a kernel-decided witness schedule; every interleaving of logout x one or two checks is also enumerated on real goroutines'],
     },
     'C06': {
